@@ -30,6 +30,7 @@ def make_install(enum, k, n, names_mode):
     return install
 def on_end(eng, out, st):
     """V3 on the path without a deviation"""
+    if out[0] != 'returned': return None          # (a path that ended undecided or in a bug is reported as such, not judged here)
     w, answered, offered = st.env.get('cat', (None, frozenset(), frozenset()))
     if w is not None: return None
     cat, devs = eng._c17
